@@ -17,3 +17,5 @@ import FpgoVerif.Props.C04
 #print axioms FpgoVerif.C04.C04_toArray_detached
 #print axioms FpgoVerif.C04.C04_clone_detached
 #print axioms FpgoVerif.C04.C04_len_agrees_partial
+#print axioms FpgoVerif.C04.C04_effects_closed
+#print axioms FpgoVerif.C04.C04_effects_inventory
